@@ -125,6 +125,20 @@ let run_a ?(multi = false) (live : bool) (ops : string list) : string =
       let (nd1, r) = step !nd (ORpcDown b) in
       let (nd2, _) = step nd1 ORestart in
       nd := nd2; restarted := true; observe r
+    | "BE" :: ents ->
+      (* a recorded call whose answer was a time-out: the answer is not compared *)
+      let b = List.map (fun e -> match split_on '.' e with
+                | [c; t; i; ts; p; f] ->
+                  if int_of_string c > !maxc then maxc := int_of_string c;
+                  (sentry_of c t i ts p, f <> "b")
+                | _ -> failwith ("bad rpc entry " ^ e)) (List.filter (fun s -> s <> "") ents) in
+      let (nd', _) = step !nd (ORpc b) in
+      nd := nd';
+      let saved = !obs in
+      observe ROk;
+      (match !obs with
+       | o :: _ -> obs := ("any" ^ String.sub o 2 (String.length o - 2)) :: saved
+       | [] -> ())
     | "B" :: ents ->
       (* B:c.t.i.ts.p.f:...  one ApplyRaftReqs call *)
       let b = List.map (fun e -> match split_on '.' e with
